@@ -306,6 +306,17 @@ pub fn run(ctx: &Ctx) -> Outcome {
             items.push((p, text_sets.len() - 1));
         }
     }
+    // (d) a literal loop behind a literal prefix in front of a continuation that needs a give-back
+    let n_loop;
+    {
+        let fam = gen::literal_loop_family();
+        n_loop = fam.len();
+        text_sets.push(gen::texts(&["a", "b", "-"], 4));
+        let set = text_sets.len() - 1;
+        for p in fam {
+            items.push((p, set));
+        }
+    }
     let acc = par_run(&items, true, Some(20_000_000), |_, (p, set), acc| {
         let texts = &text_sets[*set];
         let s = p.print();
@@ -375,7 +386,7 @@ pub fn run(ctx: &Ctx) -> Outcome {
     }
     let mut out = Outcome::new(acc);
     out.distinct_nontrivial = out.acc.distinct;
-    out.rule = format!("{} over literals a A b é space -, . [ab] [^a] [a ] [a\\-b] [+\\-.] [\\]a\\^] [^\\s\\d] [[:alpha:]&&[^b]] [\\x61-b] \\w \\s \\d, ^ $ (?m:^) (?m:$) \\b \\B \\< \\>, groups, named groups, scoped and inline flags i s m x U -i, \\A \\z, greedy/lazy quantifiers; a pattern either crate rejects is counted and skipped; every remaining pattern x all {} texts over {{a,A,b,space,\\n,é,-}} up to length 3 x is_match, find, captures (+names), find_iter, captures_iter, split, splitn(0..3), replacen(0..2)/replace/replace_all with 7 templates, NoExpand and a closure. Plus {} patterns of <= 3 nodes over k s K KELVIN-SIGN LONG-S [ks] \\w \\b \\B \\> (?i) (with and without a leading (?i)) x all texts over those letters up to length 3, and the common-syntax members of {} counted-repeat patterns with bounds 10-1100 x texts around the bound, and {} seeded patterns with 3-8 groups in a counted loop next to \\b / \\B with a failing tail and a fallback alternative. Non-trivial: a pattern with a word-boundary assertion (VM route) or a flag group that matched at least one text.", describe, texts.len(), n_fold, n_big, n_wide);
+    out.rule = format!("{} over literals a A b é space -, . [ab] [^a] [a ] [a\\-b] [+\\-.] [\\]a\\^] [^\\s\\d] [[:alpha:]&&[^b]] [\\x61-b] \\w \\s \\d, ^ $ (?m:^) (?m:$) \\b \\B \\< \\>, groups, named groups, scoped and inline flags i s m x U -i, \\A \\z, greedy/lazy quantifiers; a pattern either crate rejects is counted and skipped; every remaining pattern x all {} texts over {{a,A,b,space,\\n,é,-}} up to length 3 x is_match, find, captures (+names), find_iter, captures_iter, split, splitn(0..3), replacen(0..2)/replace/replace_all with 7 templates, NoExpand and a closure. Plus {} patterns of <= 3 nodes over k s K KELVIN-SIGN LONG-S [ks] \\w \\b \\B \\> (?i) (with and without a leading (?i)) x all texts over those letters up to length 3, and the common-syntax members of {} counted-repeat patterns with bounds 10-1100 x texts around the bound, and {} seeded patterns with 3-8 groups in a counted loop next to \\b / \\B with a failing tail and a fallback alternative, and {} patterns 'two literals, a greedy loop over one literal, a continuation, a word boundary' x all texts over a b - up to length 4. Non-trivial: a pattern with a word-boundary assertion (VM route) or a flag group that matched at least one text.", describe, texts.len(), n_fold, n_big, n_wide, n_loop);
     out.assumptions = vec!["the regex crate is the oracle; both crates share regex-automata, so a fault inside it is invisible here".into()];
     let (vm, wr) = (out.acc.get("route:vm"), out.acc.get("route:wrapped"));
     out.extra = json!({"routes": {"vm": vm, "wrapped": wr}});
